@@ -765,6 +765,38 @@ Proof.
   - reflexivity.
 Qed.
 
+(* (f) in the words of the property: a block that is no FAT sector (of either copy) and - when
+   zeroing - no block of cluster c is unchanged; without zeroing the blocks of c are unchanged *)
+Corollary alloc_cluster_data_frame vi v fsz prev (zero : bool) s c s' :
+  alloc_pre s vi v fsz -> (forall p, prev = Some p -> p < v_clusters v + 2) ->
+  alloc_cluster vi prev zero s = (Ok c, s') ->
+  (forall j, (forall copy k, k < fsz -> j <> fat_copy_sector v copy k) ->
+             (zero = true -> ~ in_cluster v c j) ->
+             disk_get (s_disk s') j = disk_get (s_disk s) j) /\
+  (zero = true -> forall k, k < v_spc v ->
+     disk_get (s_disk s') (cluster_first_block v c + k) = zero_block) /\
+  (zero = false -> forall k, k < v_spc v ->
+     disk_get (s_disk s') (cluster_first_block v c + k) = disk_get (s_disk s) (cluster_first_block v c + k)).
+Proof.
+  intros Hpre Hprev H.
+  pose proof (alloc_cluster_effect vi v fsz prev zero s c s' Hpre Hprev H) as Heff.
+  destruct Hpre as (_ & L & _).
+  destruct (ae_range _ _ _ _ _ _ _ _ Heff) as (R1 & R2 & _).
+  pose proof (layout_sector v fsz c L R2) as Hqc.
+  assert (Hfr : forall j, (forall copy k, k < fsz -> j <> fat_copy_sector v copy k) ->
+             (zero = true -> ~ in_cluster v c j) -> disk_get (s_disk s') j = disk_get (s_disk s) j).
+  { intros j Hj Hz. apply (ae_frame _ _ _ _ _ _ _ _ Heff).
+    - exact (Hj 0 _ Hqc).
+    - exact (Hj 1 _ Hqc).
+    - intros p Hp. pose proof (layout_sector v fsz p L (Hprev p Hp)) as Hqp.
+      split; [exact (Hj 0 _ Hqp)|exact (Hj 1 _ Hqp)].
+    - exact Hz. }
+  split; [exact Hfr|]. split; [exact (ae_zero _ _ _ _ _ _ _ _ Heff)|].
+  intros Hz k Hk. apply Hfr.
+  - intros copy q Hq E. exact (fat_sector_not_data v fsz copy q c k L Hq R1 (eq_sym E)).
+  - intros E. rewrite Hz in E. discriminate E.
+Qed.
+
 (* ---- 2. the order of the device writes (C10) ---- *)
 Lemma dwrites_alloc v D prev zero c :
   map fst (alloc_writes v D prev zero c) =
@@ -929,6 +961,7 @@ Print Assumptions alloc_cluster_total.
 Print Assumptions alloc_cluster_effect.
 Print Assumptions alloc_cluster_effect_inuse.
 Print Assumptions alloc_cluster_keeps_pre.
+Print Assumptions alloc_cluster_data_frame.
 Print Assumptions alloc_cluster_write_order.
 Print Assumptions alloc_cluster_write_contents.
 Print Assumptions alloc_cluster_nospace.
